@@ -422,7 +422,10 @@ class Representation(ObjectWithFields):
             origin_time = 0
             mod_segment = 1
             drift = 0
-            end = ref_duration_tc
+            # never list more than the stored media: a reference that is
+            # longer than this representation must not wrap round to
+            # segment 1 again
+            end = min(ref_duration_tc, self.mediaDuration)
         rv = []
         dur = 0
         s_node = SegmentTimelineElement(mod_segment=mod_segment)
